@@ -39,7 +39,7 @@ class Pool:
             "cond": conditional(lt(u, h), u * u, h), "cond2": conditional(lt(u * h, 1), sin(u), u * h),
             "max": max_value(u, h), "min": min_value(u * u, h), "max2": max_value(u * h, 1),
             "powg": u**h, "pow_x": (u * u + 1)**(h * u), "pow_const_base": 2**u,
-            "x0u": x[0] * u, "xpoly": x[0]**2 * x[1] + x[1], "xdot": dot(x, x) * u,
+            "x0u": x[0] * u, "xpoly": x[0]**2 * x[min(1, self.g - 1)] + x[min(1, self.g - 1)], "xdot": dot(x, x) * u,
             "dot": dot(w, z), "ww": w[i] * w[i], "tr": tr(A), "innerAA": inner(A, A), "det": det(A),
             "var": variable(u * h) * h, "var2": variable(u)**2 + sin(variable(u)),
             "Aww": dot(w, dot(A, w)), "w0": w[0] * w[self.g - 1], "A01": A[0, self.g - 1] * u,
